@@ -73,7 +73,13 @@ def run(ctx):
         if model == "harmonic_hertz":
             rc = sig
             r = sig * float(rng.uniform(0.05, 0.98))
-            if rng.random() < 0.3:
+            if rng.random() < 0.12:
+                # exactly AT contact (r == sigma in floating point: particles placed on a lattice of spacing sigma): for alpha >= 2 the
+                # derivatives are finite there (s'' = eps/sigma^2 for the harmonic case, 0 above)
+                al = float(rng.choice([2.0, 2.0, 2.5, 3.0, 4.0]))
+                r = sig
+                ctx.count("exactly_at_contact")
+            elif rng.random() < 0.3:
                 # beyond contact the documented expression is still a polynomial for an integer exponent
                 al = float(rng.choice([2.0, 3.0, 4.0]))
                 r = sig * float(rng.uniform(1.02, 1.6))
@@ -112,8 +118,20 @@ def run(ctx):
             continue
         U, d1, d2 = orc[model]
         a = tuple(mpmath.mpf(float(v_)) for v_ in (r, eps_, sig, n, A, al))
-        e1 = d1(*a)
-        e2 = d2(*a)
+        if model == "harmonic_hertz" and float(r) == float(sig):
+            # exactly at contact the sympy-generated expressions are 0/0; the documented s(r) = eps/alpha (1 - r/sigma)^alpha has the
+            # one-sided limits s' -> 0 (alpha > 1) and s'' -> eps/sigma^2 (alpha = 2), 0 (alpha > 2); guarded by the oracle itself
+            # evaluated 1e-40 sigma below contact
+            e1 = mpmath.mpf(0)
+            e2 = a[1] / a[2] ** 2 if float(al) == 2.0 else mpmath.mpf(0)
+            mpmath.mp.dps = 60
+            near = (a[2] * (1 - mpmath.mpf(10) ** -40),) + a[1:]
+            ctx.check("numeric_guard", abs(d1(*near) - e1) <= mpmath.mpf(10) ** -15 * a[1] / a[2] and abs(d2(*near) - e2) <= mpmath.mpf(10) ** -15 * a[1] / a[2] ** 2,
+                      "oracle/contact_limit", "contact limits disagree with the symbolic derivative just below contact", pars)
+            mpmath.mp.dps = 40
+        else:
+            e1 = d1(*a)
+            e2 = d2(*a)
         if model == "harmonic_hertz":
             erc = mpmath.mpf(0)
         elif shift:
@@ -143,7 +161,7 @@ def run(ctx):
             which = ["s1", "s1rc", "s2"][int(np.argmin(rel))]
             ctx.violation(f"{model}/{which}", f"{which}: got {obs[np.argmin(rel)]!r}, d/dr of the documented potential gives "
                           f"{exp[np.argmin(rel)]!r}", pars, monitor="symbolic_derivatives")
-        if i % 40 == 0:      # guard of the symbolic step: numerical differentiation of s(r) itself
+        if i % 40 == 0 and not (model == "harmonic_hertz" and float(r) == float(sig)):      # guard of the symbolic step: numerical differentiation of s(r) itself
             g1 = mpmath.diff(lambda x: U(x, *a[1:]), a[0])
             g2 = mpmath.diff(lambda x: U(x, *a[1:]), a[0], 2)
             ctx.check("numeric_guard", abs(g1 - e1) <= abs(e1) * mpmath.mpf("1e-20") and abs(g2 - e2) <= abs(e2) * mpmath.mpf("1e-15"),
